@@ -19,6 +19,8 @@ type Atom struct {
 	Tag  string // taint / provenance label for C11-style checks
 	// Payload carries the bytes behind a "b64" token
 	Payload []Value
+	// Hash carries the hashed content behind a digest computed over symbolic bytes
+	Hash []Value
 }
 
 type Seg struct {
@@ -266,7 +268,7 @@ func (s Str) Slice(lo, hi int) Str {
 							break
 						}
 						if a == off+al+1 && b == off+l {
-							bl.addSeg(Seg{A: &Atom{ID: g.A.ID, Len: l - al - 1, Kind: "hex", Info: g.A.Info, Tag: g.A.Tag}})
+							bl.addSeg(Seg{A: &Atom{ID: g.A.ID, Len: l - al - 1, Kind: "hex", Info: g.A.Info, Tag: g.A.Tag, Hash: g.A.Hash}})
 							break
 						}
 						if a == off && b == off+al+1 {
@@ -356,6 +358,36 @@ func strEq(a, b Str) *smt.T {
 		case x.a != nil && y.a != nil:
 			cs = append(cs, atomEq(x.a, y.a))
 		case x.a != nil || y.a != nil:
+			// a hash of symbolic content against a concrete digest: equal iff the
+			// content is the (known) preimage of that digest
+			at, other := x.a, ub
+			if at == nil {
+				at, other = y.a, ua
+			}
+			if at.Kind == "hex" && at.Hash != nil && i+at.Len <= len(other) {
+				hexs := make([]byte, 0, at.Len)
+				for j := i; j < i+at.Len; j++ {
+					if other[j].b == nil {
+						return smt.False
+					}
+					c, ok := other[j].b.Int64()
+					if !ok {
+						return smt.False
+					}
+					hexs = append(hexs, byte(c))
+				}
+				pre, ok := knownPreimage(at.Info, string(hexs))
+				if !ok {
+					return smt.False // a digest nobody computed in this run: assumed not to be hit
+				}
+				pv := make([]Value, len(pre))
+				for j, c := range pre {
+					pv[j] = smt.I(int64(c))
+				}
+				cs = append(cs, payloadEq(at.Hash, pv))
+				i += at.Len - 1
+				continue
+			}
 			return smt.False // opaque token vs bytes: assumed different
 		case x.b == nil && y.b == nil:
 			// padding inside aligned atoms
@@ -388,7 +420,7 @@ func canonDigest(s Str) Str {
 	for _, g := range s.Segs {
 		if g.A != nil && g.A.Kind == "digest" {
 			bl.addSeg(Seg{S: g.A.Info + ":"})
-			bl.addSeg(Seg{A: &Atom{ID: g.A.ID, Len: g.A.Len - len(g.A.Info) - 1, Kind: "hex", Info: g.A.Info, Tag: g.A.Tag}})
+			bl.addSeg(Seg{A: &Atom{ID: g.A.ID, Len: g.A.Len - len(g.A.Info) - 1, Kind: "hex", Info: g.A.Info, Tag: g.A.Tag, Hash: g.A.Hash}})
 		} else {
 			bl.addSeg(g)
 		}
